@@ -46,6 +46,8 @@ class Gen:
         self.nthreads = len(cfg['threads'])
         self.assert_n = 0
         self.asserts = []
+        self.stack_seq = {}
+        self.stack_objs = {}
         self.setup_addr_taken()
         self.setup_globals()
         self.setup_pools()
@@ -77,12 +79,21 @@ class Gen:
 
     # ------------------------------------------------------------------ objects
     def new_obj(self, name, ty, kind, thread=None, pool=None):
+        if kind == 'stack' and getattr(self, 'pass2', False):
+            # second pass: the object table is complete (stack objects of every thread exist before any access is emitted)
+            k = self.stack_seq.get(name, 0)
+            self.stack_seq[name] = k + 1
+            return self.stack_objs[(name, k)]
         size = self.L.size_align(ty)[0]
         cells = self.L.cells(ty)
         if len(cells) > self.cfg.get('max_cells', 160):
             cells = []             # opaque (big buffers): any access is reported as unmapped
         o = Obj(len(self.objs), name, ty, size, cells, kind, thread, pool)
         self.objs.append(o)
+        if kind == 'stack':
+            k = self.stack_seq.get(name, 0)
+            self.stack_seq[name] = k + 1
+            self.stack_objs[(name, k)] = o
         return o
 
     def setup_addr_taken(self):
